@@ -1,12 +1,97 @@
 package witnessworld
 
+// Edge-and-configuration audit of C19 (statement and quantifier of
+// /verif/properties.jsonl read clause by clause against witness.go, server.go,
+// impl/witness.go, api/http.go). What the generator draws, and the boundaries
+// that exist in the CODE; every rarely hit one has a probe (name in brackets).
+//
+// "every history of update requests ... sequentially or concurrently"
+//   1-3 logs, 3-24 operations, 1-4 in flight, pool 1 (impl.Main) or 3; timed
+//   mode: 3-6 goroutines in real parallel. Update 70% / GetSTH / GetLogs; a third
+//   over the HTTP handler. Caller's context: live, or cancelled before the call
+//   [ctx.already-cancelled] (never while a statement is parked, DESIGN 2.8).
+// "STHs from forked trees, stale or replayed STHs"
+//   Update compares next.TreeSize <, ==, > prev.TreeSize: sizes held-1 (choice 0
+//   of "stale") [refused.stale.by-one-leaf], held (replay of the exact bytes,
+//   re-signed with another timestamp, re-issued signature over the same head,
+//   equal size on another tree [refused.equal-size-other-root]), held+1 (choice 0
+//   of "extend") [accepted.by-one-leaf]; size 0 held [held.size0] and extended
+//   [accepted.from-size0] (VerifyConsistency has its own size1==0 / size1==size2 /
+//   len(proof)==0 / size1 a power of two branches: trees of 4-24 leaves cover 1, 2,
+//   4, 8, 16 and their neighbours); forks exactly at and one leaf past the fork
+//   point [fork.at-forkpoint, fork.one-past-forkpoint, accepted.past-a-forkpoint];
+//   mirror logs (same heads under another key) [mirror.run]; heads a log signed
+//   that lie on no tree, sizes 25, 2^63-1, 2^63, 2^64-1 [offtree.sent,
+//   offtree.accepted]; timestamps 0 and 2^64-1 [ts.extreme] (never compared).
+// "unknown or mismatching log IDs"
+//   id string: configured; a well-formed stranger; wrong length; not base64; empty
+//   (direct only); non-canonical spellings that decode to a configured id
+//   (3 trailing-bit variants, CR / LF inside or at the end) [id.alias.*]; near
+//   misses that do not decode (no / double padding, URL-safe alphabet, leading
+//   space) [id.near.*]. Embedded log_id (optional field): absent / own / present
+//   and all zero [id.zero, held.zero-id] / another log's / random. The exact bytes
+//   another log accepted, sent to this log [crosslog.*].
+// "bad log signatures"
+//   wrong key (other log's, stranger's; P-256 vs RSA), one flipped bit, wrong
+//   hash / signature algorithm byte, short DigitallySigned, signature over another
+//   timestamp, sth_version 1, unparsable JSON (8 shapes), extra JSON members
+//   [cand.extra-members]. Log keys: P-256, RSA-2048 (NewSignatureVerifier refuses
+//   other curves and Ed25519: not a configuration the witness can start with).
+// "missing, forged or mismatched consistency proofs"
+//   correct for what the feeder believes is held (may be out of date); correct for
+//   a neighbouring pair of sizes (m-1, m+1, n-1, n+1) [proof.off-by-one] or other
+//   sizes; the other fork's; one or more hashes missing at either end; one extra
+//   at either end; random; hashes of 31 / 33 / 0 bytes [proof.hash-length];
+//   absent; over HTTP also "Proof": null and [] [http.body.proof-*].
+// "the witness key" (Opts.PrivKey): RSA-2048, ECDSA P-256, ECDSA P-384 [wkey.*].
+//   Ed25519 also passes New but signSTH cannot sign with it: see FINDINGS.
+// HTTP layer (as far as the statement goes: status 200 / 409 / anything else, and
+//   the body that comes with it): body empty / not JSON / STH member missing / not
+//   base64 / wrong types / unknown members / read error [http.body.*]; wrong
+//   method, id with an unescaped '/' [http.edge.*]; ids with '/', '+', '=', CR, LF
+//   escaped. (url.PathUnescape failing inside the handler is unreachable: net/http
+//   and mux refuse such a path first.) The ResponseWriter is a recorder; a failing
+//   Write is only logged by the handler. klog is silenced, not a seam: nothing is
+//   decided on it.
+// SQLite faults: db.err / db.busy (SQLITE_BUSY or SQLITE_LOCKED
+//   [fault.sqlite-locked]) before Begin / Query / Exec / Commit / Rollback; failing
+//   while the rows of a SELECT are read [fault.at-rows] (must not be taken for "no
+//   row" = first use); COMMIT not applied; COMMIT applied but reported failed
+//   [commit.lost-ack]; real lock conflicts between interleaved transactions
+//   [sqlite.busy.real, tx.interleaved]; crash(witness) with open transactions and
+//   reopen: only committed rows survive [crash.reopen].
+// Oracle reading of the two cases outside "family of trees": an all-zero
+//   embedded id is an absent one (fixed-size array in ct.SignedTreeHead); a size-0
+//   head is extended by every larger head; a head on no known tree is extended
+//   only by an equal one. Rows are judged per configured log by DECODED identity
+//   (whatever spelling a head was stored under); GetLogs must list exactly
+//   configured id strings that hold a head.
+// Not drawn: restarting with a different KnownLogs / key (configuration change
+//   across incarnations), zero configured logs, contexts ending mid-call, crash
+//   in timed mode.
+//
+// FINDINGS on the unchanged /repo that these edges produce (generator classes
+// off by default, VERIF_WITNESS_FINDINGS=ed25519key,wsigs or =all switches them
+// on; minimised replays in findings/):
+//   ed25519key  New accepts an Ed25519 PKCS#8 key; every accepted Update then
+//               COMMITS the new head and returns "unsupported private key type":
+//               refused-but-stored [err/witness-key-ed25519].
+//   wsigs       Update stores the request bytes verbatim and answers replays and
+//               409s with the stored bytes; a "witness_signatures" member put
+//               there by a feeder comes back as if it were this witness's
+//               cosignature and does not verify: cosignature-invalid
+//               [update/stored-bytes-echoed-with-feeder-supplied-witness_signatures].
+
 import (
 	"bytes"
 	"context"
 	"database/sql"
+	"encoding/base64"
 	"encoding/json"
 	"encoding/pem"
+	"errors"
 	"fmt"
+	"io"
 	"net/http"
 	"net/http/httptest"
 	"net/url"
@@ -50,10 +135,17 @@ type op struct {
 	HTTP      bool
 	Log       *logSpec // the configured log addressed (nil: the id sent is not a configured log)
 	IDSent    string
+	Alias     string // non-canonical spelling of Log's id that still decodes to its 32 bytes ("" = the configured string)
 	Cand      *cand
 	CandKind  string
 	ProofKind string
 	Proof     [][]byte
+	BodyKind  string // HTTP update: how the request body is written ("" = the plain form)
+	HTTPEdge  string // HTTP: a request that does not follow the API's routes ("" = well-formed)
+	Malformed bool   // the request cannot carry the candidate to Witness.Update
+	CtxDone   bool   // the caller's context is already cancelled when the call is made
+	Spliced   string // extra JSON members spliced into the candidate
+	sendRaw   []byte // the head bytes put on the wire (differs from Cand.raw only for malformed requests)
 
 	CallStep, RetStep int
 	CallT, RetT       int64
@@ -132,6 +224,15 @@ type World struct {
 	stepBudget              int64
 }
 
+// findingOn: generator classes that reproduced two defects of /repo (an Ed25519
+// witness key: STH stored although it could not be cosigned; feeder-supplied
+// witness_signatures echoed back). Both are repaired in /repo (known_findings.json),
+// so the classes are part of the default generator; VERIF_WITNESS_FINDINGS=off
+// switches them off for experiments.
+func findingOn(name string) bool {
+	return os.Getenv("VERIF_WITNESS_FINDINGS") != "off"
+}
+
 // New is the constructor for the kernel.
 func New() kernel.World { return &World{} }
 
@@ -201,6 +302,15 @@ func (w *World) Init(s *kernel.Sim) {
 	w.stranger = newLog(-1, "LX", pick(6))
 	genTrees(t, w.stranger)
 	w.wkey = pick(5)
+	// witness key classes: RSA-2048, ECDSA P-256, ECDSA on another curve (P-384);
+	// Ed25519 parses as PKCS#8 too but tls.CreateSignature cannot sign with it
+	switch {
+	case t.Chance(1, 8):
+		w.wkey = oracle.Keys("p384")[0]
+	case findingOn("ed25519key") && t.Chance(1, 6):
+		w.wkey = oracle.Keys("ed25519")[0]
+	}
+	s.Probe("wkey." + w.wkey.Kind)
 	w.wpem = string(pem.EncodeToMemory(&pem.Block{Type: "PRIVATE KEY", Bytes: w.wkey.PKCS8}))
 
 	w.e = &env{s: s, w: w, gids: map[uint64]string{}, incs: map[string]*incarnation{}}
@@ -306,23 +416,107 @@ func (w *World) pickExtension(l *logSpec, believed *sth) (*tree, int) {
 			bt = l.trees[t.Intn(len(l.trees))]
 		}
 		if m := w.mirrorHeld(l); m != nil && m.Size > 0 && onTree(bt, m.Size, m.Root) && t.Chance(1, 2) {
-			return bt, int(m.Size)
+			return bt, clampSize(m.Size)
 		}
 		if t.Chance(1, 4) {
 			return bt, t.Range(1, bt.size())
 		}
 		return bt, t.Range(1, min(4, bt.size())) // mostly start small, so that histories get long
 	}
-	if b := int(believed.Size); b < bt.size() {
-		if m := w.mirrorHeld(l); m != nil && int(m.Size) > b && onTree(bt, m.Size, m.Root) && t.Chance(1, 2) {
-			return bt, int(m.Size) // catch up with the mirror: the same tree head under another key
+	if b := clampSize(believed.Size); b < bt.size() {
+		if m := w.mirrorHeld(l); m != nil && clampSize(m.Size) > b && onTree(bt, m.Size, m.Root) && t.Chance(1, 2) {
+			return bt, clampSize(m.Size) // catch up with the mirror: the same tree head under another key
 		}
 		if t.Chance(1, 4) {
 			return bt, t.Range(b+1, bt.size())
 		}
-		return bt, t.Range(b+1, min(b+3, bt.size()))
+		return bt, t.Range(b+1, min(b+3, bt.size())) // choice 0: exactly one leaf more
 	}
 	return bt, bt.size()
+}
+
+// aliasKinds: spellings of a configured id that are not the configured string
+// but decode (lenient RFC 4648 decoding: CR/LF skipped, unused trailing bits of
+// the last symbol ignored) to the same 32 bytes.
+var aliasKinds = []string{"trailing-bits-1", "trailing-bits-2", "trailing-bits-3", "lf-inside", "lf-at-end", "crlf-at-end", "cr-inside"}
+
+// nearKinds: spellings derived from a configured id that do not decode with the standard alphabet and padding.
+var nearKinds = []string{"no-padding", "double-padding", "url-safe-alphabet", "leading-space"}
+
+const b64alphabet = "ABCDEFGHIJKLMNOPQRSTUVWXYZabcdefghijklmnopqrstuvwxyz0123456789+/"
+
+// spell returns the id of l in the given non-canonical spelling ("" if that spelling coincides with the canonical one).
+func spell(l *logSpec, kind string) string {
+	id := l.idB64 // 43 symbols and one '='; the last symbol carries 4 bits of data and 2 unused bits
+	switch kind {
+	case "trailing-bits-1", "trailing-bits-2", "trailing-bits-3":
+		k := int(kind[len(kind)-1] - '0')
+		v := strings.IndexByte(b64alphabet, id[42])
+		if v < 0 || v&3 != 0 {
+			return ""
+		}
+		return id[:42] + string(b64alphabet[v|k]) + "="
+	case "lf-inside":
+		return id[:20] + "\n" + id[20:]
+	case "cr-inside":
+		return id[:7] + "\r" + id[7:]
+	case "lf-at-end":
+		return id + "\n"
+	case "crlf-at-end":
+		return id + "\r\n"
+	case "no-padding":
+		return strings.TrimRight(id, "=")
+	case "double-padding":
+		return id + "="
+	case "url-safe-alphabet":
+		u := strings.NewReplacer("+", "-", "/", "_").Replace(id)
+		if u == id {
+			return ""
+		}
+		return u
+	case "leading-space":
+		return " " + id
+	}
+	return ""
+}
+
+// respell draws a spelling for an operation addressed to l: mostly an alias
+// (Log stays l: by decoded identity it is that log), sometimes a near miss
+// that does not decode (Log = nil: an unknown id whatever the decoder).
+func (w *World) respell(o *op, l *logSpec) {
+	t := w.s.T
+	if t.Chance(1, 4) {
+		k := nearKinds[t.Intn(len(nearKinds))]
+		if sp := spell(l, k); sp != "" {
+			o.Log, o.IDSent = nil, sp
+			w.s.Probe("id.near." + k)
+			return
+		}
+	}
+	k := aliasKinds[t.Intn(len(aliasKinds))]
+	if sp := spell(l, k); sp != "" {
+		o.Log, o.IDSent, o.Alias = l, sp, k
+		w.s.Probe("id.alias." + k)
+	}
+}
+
+// resolveLog maps an id string to the configured log it denotes by decoded
+// identity: the exact configured string, or any spelling that base64-decodes
+// (leniently, as encoding/base64 does) to the log's 32-byte id.
+func (w *World) resolveLog(id string) *logSpec {
+	if l := w.logByID[id]; l != nil {
+		return l
+	}
+	b, err := base64.StdEncoding.DecodeString(id)
+	if err != nil || len(b) != 32 {
+		return nil
+	}
+	for _, l := range w.logs {
+		if bytes.Equal(b, l.id[:]) {
+			return l
+		}
+	}
+	return nil
 }
 
 // mirrorHeld is what the mirror of l holds now (nil: no mirror, or nothing held).
@@ -345,7 +539,29 @@ func (w *World) newOp() *op {
 		l := w.logs[t.Intn(len(w.logs))]
 		o.Log, o.IDSent = l, l.idB64
 		if t.Chance(1, 8) {
-			o.Log, o.IDSent = nil, w.stranger.idB64
+			o.Log = nil
+			switch t.Intn(4) {
+			case 0:
+				o.IDSent = w.stranger.idB64
+			case 1:
+				o.IDSent = "bm90LWEtbG9nLWlk" // base64, wrong length
+			case 2:
+				o.IDSent = "not base64 !"
+			case 3:
+				o.IDSent = "bm90LWEtbG9nLWlk"
+				if !o.HTTP {
+					o.IDSent = ""
+				}
+			}
+		} else if t.Chance(1, 8) {
+			w.respell(o, l)
+		} else if o.HTTP && t.Chance(1, 16) {
+			o.Log, o.Malformed = nil, true
+			o.HTTPEdge = "wrong-method"
+			if strings.Contains(o.IDSent, "/") && t.Chance(1, 2) {
+				o.HTTPEdge = "unescaped-id"
+			}
+			w.s.Probe("http.edge." + o.HTTPEdge)
 		}
 	case "update":
 		w.drawUpdate(o)
@@ -407,12 +623,21 @@ func (w *World) drawUpdate(o *op) {
 	if h := w.hist[l.idx]; len(h) > 1 && t.Chance(1, 8) {
 		believed = h[t.Intn(len(h)-1)].h
 	}
-	kinds := []string{"extend", "any", "stale", "replay", "otherlog", "unknownlog", "mismatchid", "wrongkey", "badsig", "garbage", "badversion", "fork", "crosslog"}
+	kinds := []string{"extend", "any", "stale", "replay", "otherlog", "unknownlog", "mismatchid", "wrongkey", "badsig", "garbage", "badversion", "fork", "crosslog", "offtree"}
 	cross := 0
 	if len(w.logs) > 1 && len(w.acceptedAnywhere()) > 0 {
 		cross = 5
 	}
-	o.CandKind = kinds[t.Pick([]int{16, 4, 2, 2, 1, 1, 1, 1, 1, 1, 1, 4, cross})]
+	kw := []int{16, 4, 2, 2, 1, 1, 1, 1, 1, 1, 1, 4, cross, 1}
+	if t.Chance(1, 10) {
+		// the same log under another spelling of its id: what would hurt if the spelling
+		// were taken for the log is a head that conflicts with the one held
+		w.respell(o, l)
+		if o.Alias != "" {
+			kw = []int{4, 4, 6, 2, 0, 0, 0, 0, 0, 0, 0, 6, 0, 0}
+		}
+	}
+	o.CandKind = kinds[t.Pick(kw)]
 	if o.CandKind == "crosslog" {
 		// the exact bytes another log got accepted, sent to this log: often to one
 		// that holds nothing yet (first use), otherwise as an update with a proof drawn as usual
@@ -439,7 +664,7 @@ func (w *World) drawUpdate(o *op) {
 		if h != nil && len(h.LogID) != 0 {
 			id = "+id"
 		}
-		c0 := w.mkCand(fmt.Sprintf("%s bytes accepted by %s @%d %s", l.name, a.log.name, a.size, id), append([]byte(nil), a.raw...), a.log, treeOf(a.log, h), int(a.size))
+		c0 := w.mkCand(fmt.Sprintf("%s bytes accepted by %s @%d %s", l.name, a.log.name, a.size, id), append([]byte(nil), a.raw...), a.log, treeOf(a.log, h), clampSize(a.size))
 		o.Cand = c0
 		w.s.Probe("crosslog.sent")
 		if cur == nil {
@@ -449,10 +674,17 @@ func (w *World) drawUpdate(o *op) {
 			w.s.Probe("crosslog.no-id")
 		}
 	}
-	embed := t.Chance(1, 2)
+	embed := []int{embedAbsent, embedOwn, embedZero}[t.Pick([]int{4, 4, 1})] // the optional log_id: absent / set / present and zero
+	if embed == embedZero {
+		w.s.Probe("id.zero")
+	}
 	issue := 0 // the log may have signed the same tree head more than once
 	if t.Chance(1, 6) {
 		issue = 100 * t.Range(1, 2)
+	}
+	if t.Chance(1, 16) { // timestamp at an end of its range (the witness must not care)
+		issue += 98 + t.Intn(2)
+		w.s.Probe("ts.extreme")
 	}
 	c := o.Cand
 	switch o.CandKind {
@@ -464,19 +696,42 @@ func (w *World) drawUpdate(o *op) {
 		c = w.honestHead(l, bt, bt.size()-t.Intn(bt.size()+1), issue, embed)
 	case "fork": // split view: a head of another tree of this log, not smaller than what is believed held
 		bt := l.trees[t.Intn(len(l.trees))]
-		if on := treeOf(l, believed); on != nil && len(l.trees) > 1 {
-			for bt == on {
-				bt = l.trees[t.Intn(len(l.trees))]
+		if on := treeOf(l, believed); on != nil && bt == on { // (no retry loop: a zero tape must terminate)
+			var others []*tree
+			for _, x := range l.trees {
+				if x != on {
+					others = append(others, x)
+				}
 			}
+			bt = others[t.Intn(len(others))]
 		}
 		lo := 1
-		if believed != nil && int(believed.Size) <= bt.size() {
-			lo = int(believed.Size)
+		if believed != nil && clampSize(believed.Size) <= bt.size() {
+			lo = max(1, clampSize(believed.Size)) // the equal-size head of another tree included
 		}
-		c = w.honestHead(l, bt, t.Range(lo, bt.size()), issue, embed)
+		// the boundary: up to the fork point the other tree IS a genuine extension, one leaf later it is not
+		fa := bt.forkAt
+		if on := treeOf(l, believed); on != nil {
+			fa = min(fa, on.forkAt)
+		}
+		n := t.Range(lo, bt.size())
+		switch t.Intn(4) {
+		case 0:
+			if fa >= lo && fa <= bt.size() {
+				n = fa
+				w.s.Probe("fork.at-forkpoint")
+			}
+		case 1:
+			if fa+1 >= lo && fa+1 <= bt.size() {
+				n = fa + 1
+				w.s.Probe("fork.one-past-forkpoint")
+			}
+		}
+		c = w.honestHead(l, bt, n, issue, embed)
 	case "stale":
 		if bt := treeOf(l, believed); bt != nil && believed.Size > 0 {
-			c = w.honestHead(l, bt, int(believed.Size)-1-t.Intn(int(believed.Size)), 0, embed)
+			b := clampSize(believed.Size)
+			c = w.honestHead(l, bt, b-1-t.Intn(b), 0, embed) // choice 0: exactly one leaf less
 		} else {
 			bt := l.trees[t.Intn(len(l.trees))]
 			c = w.honestHead(l, bt, bt.size()-t.Intn(bt.size()+1), 0, embed)
@@ -487,13 +742,15 @@ func (w *World) drawUpdate(o *op) {
 		case raw == nil:
 			bt, n := w.pickExtension(l, nil)
 			c = w.honestHead(l, bt, n, 0, embed)
+		case treeOf(l, cur) == nil: // the held head lies on no tree: only the exact bytes can be replayed
+			c = w.mkCand(fmt.Sprintf("%s/held@%d(off-tree)", l.name, cur.Size), append([]byte(nil), raw...), l, nil, clampSize(cur.Size))
 		case t.Chance(1, 3): // same size and root, re-signed with another timestamp
-			c = w.honestHead(l, treeOf(l, cur), int(cur.Size), 7, embed)
+			c = w.honestHead(l, treeOf(l, cur), clampSize(cur.Size), 7, embed)
 			c.desc += "(re-signed)"
 		case t.Chance(1, 3): // the very same tree head (size, timestamp, root), signed again
-			c = w.honestHead(l, treeOf(l, cur), int(cur.Size), int(cur.TS%1000)+100*t.Range(1, 2), embed)
+			c = w.honestHead(l, treeOf(l, cur), clampSize(cur.Size), int(cur.TS%1000)%98+100*t.Range(1, 2), embed)
 		default:
-			c = w.mkCand(fmt.Sprintf("%s/held@%d", l.name, cur.Size), append([]byte(nil), raw...), l, treeOf(l, cur), int(cur.Size))
+			c = w.mkCand(fmt.Sprintf("%s/held@%d", l.name, cur.Size), append([]byte(nil), raw...), l, treeOf(l, cur), clampSize(cur.Size))
 		}
 	case "otherlog": // a head of another log, signed by that log, sent under this log's id
 		other := w.otherLog(l)
@@ -512,7 +769,12 @@ func (w *World) drawUpdate(o *op) {
 		bt, n := w.pickExtension(l, believed)
 		c = w.honestHead(l, bt, n, 0, embed)
 		o.Log = nil
-		switch t.Intn(4) {
+		switch t.Intn(5) {
+		case 4: // no id at all (cannot be put in a URL path: direct calls only)
+			o.IDSent = "bm90LWEtbG9nLWlk"
+			if !o.HTTP {
+				o.IDSent = ""
+			}
 		case 0: // a real log the witness does not follow, with its own correctly signed head
 			o.IDSent = w.stranger.idB64
 			st := w.stranger.trees[0]
@@ -548,10 +810,7 @@ func (w *World) drawUpdate(o *op) {
 			k = w.stranger.key
 		}
 		sh := w.sign(k, headTS(n, 0), uint64(n), bt.roots[n])
-		var id []byte
-		if embed {
-			id = l.id[:]
-		}
+		id := embedID(l, embed)
 		c = w.mkCand(fmt.Sprintf("%s/%s@%d(signed by %s)", l.name, bt.name, n, k.Kind), sh.json(0, id), l, bt, n)
 	case "badsig":
 		bt, n := w.pickExtension(l, believed)
@@ -571,11 +830,26 @@ func (w *World) drawUpdate(o *op) {
 			sig = w.sign(l.key, headTS(n, 3), uint64(n), bt.roots[n]).sig
 		}
 		sh.sig = sig
-		var id []byte
-		if embed {
-			id = l.id[:]
-		}
+		id := embedID(l, embed)
 		c = w.mkCand(fmt.Sprintf("%s/%s@%d(badsig %d)", l.name, bt.name, n, how), sh.json(0, id), l, bt, n)
+	case "offtree": // a log may sign anything: heads that lie on none of its trees, sizes at the ends of uint64
+		how := t.Intn(6)
+		size := uint64(0)
+		switch how {
+		case 1:
+			size = uint64(t.Range(1, l.trees[0].size()))
+		case 2:
+			size = 25 // one past the largest tree the oracle ever builds
+		case 3:
+			size = 1<<63 - 1
+		case 4:
+			size = 1 << 63
+		case 5:
+			size = ^uint64(0)
+		}
+		sh := w.sign(l.key, headTS(clampSize(size)%1000, 0), size, randHash(t.Intn(1<<16), 1, 32))
+		c = w.mkCand(fmt.Sprintf("%s/off-tree size=%d", l.name, size), sh.json(0, embedID(l, embed)), l, nil, clampSize(size))
+		w.s.Probe("offtree.sent")
 	case "garbage":
 		g := t.Intn(len(garbage))
 		c = w.mkCand(fmt.Sprintf("garbage %d", g), []byte(garbage[g]), nil, nil, 0)
@@ -584,12 +858,71 @@ func (w *World) drawUpdate(o *op) {
 		sh := w.sign(l.key, headTS(n, 0), uint64(n), bt.roots[n])
 		c = w.mkCand(fmt.Sprintf("%s/%s@%d(version 1)", l.name, bt.name, n), sh.json(1, nil), l, bt, n)
 	}
+	// extra JSON members in an otherwise valid head: the witness stores the bytes as sent
+	if c.h != nil && c.tree != nil && (o.CandKind == "extend" || o.CandKind == "any" || o.CandKind == "fork") {
+		switch {
+		case t.Chance(1, 12):
+			o.Spliced = `,"note":{"from":"feeder","k":[1,2,3]}`
+			w.s.Probe("cand.extra-members")
+		case findingOn("wsigs") && t.Chance(1, 6):
+			// a feeder-supplied "witness_signatures" member (well-formed DigitallySigned, not made by this witness)
+			o.Spliced = `,"witness_signatures":["` + base64.StdEncoding.EncodeToString(append([]byte{4, 3, 0, 8}, randHash(t.Intn(1<<16), 2, 8)...)) + `"]`
+			w.s.Probe("cand.feeder-wsigs")
+		}
+		if o.Spliced != "" {
+			c = w.mkCand(c.desc+"(+members)", splice(c.raw, o.Spliced), c.log, c.tree, c.size)
+		}
+	}
 	o.Cand = c
+	if t.Chance(1, 40) {
+		o.CtxDone = true
+		w.s.Probe("ctx.already-cancelled")
+	}
+	if o.HTTP {
+		switch t.Pick([]int{24, 2, 2, 1, 1, 1, 1, 1, 1, 1, 1, 1}) {
+		case 1:
+			o.BodyKind = "proof-null"
+		case 2:
+			o.BodyKind = "proof-empty-array"
+		case 3:
+			o.BodyKind, o.Malformed = "empty-body", true
+		case 4:
+			o.BodyKind, o.Malformed = "not-json", true
+		case 5:
+			o.BodyKind, o.Malformed = "sth-missing", true
+		case 6:
+			o.BodyKind, o.Malformed = "sth-not-base64", true
+		case 7:
+			o.BodyKind, o.Malformed = "wrong-types", true
+		case 8:
+			o.BodyKind, o.Malformed = "read-error", true
+		case 9:
+			o.BodyKind = "unknown-members"
+		case 10:
+			o.HTTPEdge, o.Malformed = "wrong-method", true
+		case 11:
+			if strings.Contains(o.IDSent, "/") {
+				o.HTTPEdge, o.Malformed = "unescaped-id", true
+			}
+		}
+		if o.BodyKind != "" {
+			w.s.Probe("http.body." + o.BodyKind)
+		}
+		if o.HTTPEdge != "" {
+			w.s.Probe("http.edge." + o.HTTPEdge)
+		}
+	}
+	o.sendRaw = o.Cand.raw
+	if o.Malformed {
+		// the witness never gets to see the candidate: to the model this is an unparsable update
+		o.CandKind += "/malformed-request"
+		o.Cand = w.mkCand("(request malformed: "+o.BodyKind+o.HTTPEdge+")", nil, nil, nil, 0)
+	}
 
 	// the proof: from what the feeder believes is held to the candidate, on the candidate's tree
 	m := 0
 	if believed != nil {
-		m = int(believed.Size)
+		m = clampSize(believed.Size)
 	}
 	bt, n := c.tree, c.size
 	right := correctProof(bt, m, n)
@@ -606,8 +939,16 @@ func (w *World) drawUpdate(o *op) {
 		for i := 0; i < k; i++ {
 			pf = append(pf, randHash(seed, i, 32))
 		}
-		if t.Chance(1, 4) {
-			pf[0] = pf[0][:31]
+		if t.Chance(1, 4) { // a hash of the wrong length: one short, one long, empty
+			switch t.Intn(3) {
+			case 0:
+				pf[0] = pf[0][:31]
+			case 1:
+				pf[0] = append(append([]byte(nil), pf[0]...), 0)
+			case 2:
+				pf[0] = []byte{}
+			}
+			w.s.Probe("proof.hash-length")
 		}
 		return pf
 	}
@@ -618,6 +959,19 @@ func (w *World) drawUpdate(o *op) {
 		if bt != nil && bt.size() >= 2 {
 			n2 := t.Range(2, bt.size())
 			m2 := t.Range(1, n2-1)
+			if t.Chance(1, 2) { // a correct proof for a neighbouring pair of sizes
+				var nb [][2]int
+				for _, c := range [][2]int{{m - 1, n}, {m + 1, n}, {m, n - 1}, {m, n + 1}} {
+					if c[0] > 0 && c[0] < c[1] && c[1] <= bt.size() {
+						nb = append(nb, c)
+					}
+				}
+				if len(nb) > 0 {
+					c := nb[t.Intn(len(nb))]
+					m2, n2 = c[0], c[1]
+					w.s.Probe("proof.off-by-one")
+				}
+			}
 			o.Proof = correctProof(bt, m2, n2)
 		} else {
 			o.Proof = random()
@@ -637,7 +991,12 @@ func (w *World) drawUpdate(o *op) {
 		}
 	case "truncated":
 		if len(right) > 0 {
-			o.Proof = cloneProof(right[:len(right)-1-t.Intn(len(right))])
+			k := 1 + t.Intn(len(right)) // choice 0: exactly one hash missing
+			if t.Chance(1, 2) {
+				o.Proof = cloneProof(right[:len(right)-k])
+			} else {
+				o.Proof = cloneProof(right[k:])
+			}
 		} else {
 			o.Proof = random()
 		}
@@ -687,6 +1046,42 @@ type updateBody struct {
 	Proof [][]byte `json:"Proof,omitempty"`
 }
 
+// errReader is a request body that fails while it is read.
+type errReader struct{}
+
+func (errReader) Read([]byte) (int, error) {
+	return 0, errors.New("simulated: connection reset while reading the body")
+}
+
+// httpUpdateBody writes the PUT body in one of the forms the handler has to cope with.
+func httpUpdateBody(o *op, raw []byte) io.Reader {
+	b, err := json.Marshal(updateBody{STH: raw, Proof: o.Proof})
+	if err != nil {
+		panic("harness: " + err.Error())
+	}
+	switch o.BodyKind {
+	case "proof-null":
+		b, _ = json.Marshal(map[string]any{"STH": raw, "Proof": nil})
+	case "proof-empty-array":
+		b, _ = json.Marshal(map[string]any{"STH": raw, "Proof": [][]byte{}})
+	case "unknown-members":
+		b, _ = json.Marshal(map[string]any{"STH": raw, "Proof": o.Proof, "Comment": "hello", "Nested": map[string]int{"a": 1}})
+	case "empty-body":
+		b = nil
+	case "not-json":
+		b = []byte("STH=abc&Proof=def")
+	case "sth-missing":
+		b, _ = json.Marshal(map[string]any{"Proof": o.Proof})
+	case "sth-not-base64":
+		b = []byte(`{"STH":"***not base64***"}`)
+	case "wrong-types":
+		b = []byte(`{"STH":17,"Proof":"x"}`)
+	case "read-error":
+		return errReader{}
+	}
+	return bytes.NewReader(b)
+}
+
 func (w *World) launch(o *op) {
 	s := w.s
 	w.active++
@@ -708,6 +1103,12 @@ func (w *World) execute(o *op) {
 			}
 		}()
 		ctx := context.WithValue(context.Background(), partyKey, o.Party)
+		if o.CtxDone {
+			// cancelled BEFORE the call: nothing of it is parked when the context ends (DESIGN §2.8)
+			c2, cancel := context.WithCancel(ctx)
+			cancel()
+			ctx = c2
+		}
 		var outcome string
 		var body []byte
 		var code int
@@ -716,13 +1117,23 @@ func (w *World) execute(o *op) {
 			var req *http.Request
 			switch o.Kind {
 			case "update":
-				b, err := json.Marshal(updateBody{STH: o.Cand.raw, Proof: o.Proof})
-				if err != nil {
-					panic("harness: " + err.Error())
+				method, id := http.MethodPut, url.PathEscape(o.IDSent)
+				switch o.HTTPEdge {
+				case "wrong-method":
+					method = http.MethodPost
+				case "unescaped-id":
+					id = strings.ReplaceAll(url.PathEscape(o.IDSent), "%2F", "/")
 				}
-				req = httptest.NewRequest(http.MethodPut, "http://witness.sim"+fmt.Sprintf(witnessx.HTTPUpdate, url.PathEscape(o.IDSent)), bytes.NewReader(b))
+				req = httptest.NewRequest(method, "http://witness.sim"+fmt.Sprintf(witnessx.HTTPUpdate, id), httpUpdateBody(o, o.sendRaw))
 			case "getsth":
-				req = httptest.NewRequest(http.MethodGet, "http://witness.sim"+fmt.Sprintf(witnessx.HTTPGetSTH, url.PathEscape(o.IDSent)), nil)
+				method, id := http.MethodGet, url.PathEscape(o.IDSent)
+				switch o.HTTPEdge {
+				case "wrong-method":
+					method = http.MethodPut
+				case "unescaped-id":
+					id = strings.ReplaceAll(url.PathEscape(o.IDSent), "%2F", "/")
+				}
+				req = httptest.NewRequest(method, "http://witness.sim"+fmt.Sprintf(witnessx.HTTPGetSTH, id), nil)
 			case "getlogs":
 				req = httptest.NewRequest(http.MethodGet, "http://witness.sim"+witnessx.HTTPGetLogs, nil)
 			}
@@ -840,9 +1251,9 @@ func (w *World) Options(s *kernel.Sim) []kernel.Option {
 			}
 			switch o.Kind {
 			case "update":
-				s.Logf("%s update via=%s id=%q sth=%s[%s] proof=%s(%d)", o.Party, via, o.IDSent, o.CandKind, o.Cand.desc, o.ProofKind, len(o.Proof))
+				s.Logf("%s update via=%s id=%q sth=%s[%s] proof=%s(%d) body=%q edge=%q ctxdone=%v", o.Party, via, o.IDSent, o.CandKind, o.Cand.desc, o.ProofKind, len(o.Proof), o.BodyKind, o.HTTPEdge, o.CtxDone)
 			default:
-				s.Logf("%s %s via=%s id=%q", o.Party, o.Kind, via, o.IDSent)
+				s.Logf("%s %s via=%s id=%q edge=%q", o.Party, o.Kind, via, o.IDSent, o.HTTPEdge)
 			}
 			w.launch(o)
 		}})
@@ -854,6 +1265,12 @@ func (w *World) Options(s *kernel.Sim) []kernel.Option {
 				if p.Name == "sql.commit" {
 					opts = append(opts, w.relOpt(p, kernel.Decision{Kind: "db.err", S: "lost-ack"}, 1))
 				}
+				if p.Name == "sql.query" { // the statement starts, reading its rows fails
+					opts = append(opts, w.relOpt(p, kernel.Decision{Kind: "db.err", S: "at-rows"}, 1))
+				}
+			}
+			if w.prof.DBBusy && p.Name == "sql.query" {
+				opts = append(opts, w.relOpt(p, kernel.Decision{Kind: "db.busy", S: "at-rows"}, 1))
 			}
 			if w.prof.DBBusy && p.Name != "sql.rollback" {
 				opts = append(opts, w.relOpt(p, kernel.Decision{Kind: "db.busy"}, 1))
